@@ -101,6 +101,9 @@ pub struct Plan {
     /// callables (C20).
     pub logs_before: usize,
     pub logs_after: usize,
+    /// Hooks and steps that are planned to panic do so synchronously, when
+    /// they are *called* (before they return their future), not inside it.
+    pub sync_panics: bool,
 }
 
 impl Default for Plan {
@@ -112,6 +115,7 @@ impl Default for Plan {
             gates: GateMode::None,
             logs_before: 0,
             logs_after: 0,
+            sync_panics: false,
         }
     }
 }
@@ -335,9 +339,28 @@ fn emit_logs(_key: &str, _inv: usize, _phase: &str, n: usize) {
     }
 }
 
-/// Common body of every step and hook.
-async fn callable(key: String, world: Option<&mut TW>, reason: Option<String>) {
-    let (inv, gated, outcome, lb, la) = HS.with(|h| {
+/// What `begin()` decided for one invocation of a callable.
+struct Begun {
+    key: String,
+    inv: usize,
+    gated: bool,
+    outcome: Outcome,
+    logs_after: usize,
+}
+
+fn throw(outcome: Outcome, key: &str, inv: usize) {
+    match outcome {
+        Outcome::Pass => {}
+        Outcome::PanicString => std::panic::panic_any(format!("boom {key}#{inv}")),
+        Outcome::PanicStr => std::panic::panic_any("boom-static"),
+        Outcome::PanicCustom => std::panic::panic_any(CustomPayload(format!("{key}#{inv}"))),
+    }
+}
+
+/// First (synchronous) half of every step and hook: bookkeeping, and with
+/// `Plan::sync_panics` the planned panic itself.
+fn begin(key: String, world: Option<&mut TW>, reason: Option<String>) -> Begun {
+    let (inv, gated, outcome, lb, la, sync) = HS.with(|h| {
         let mut h = h.borrow_mut();
         let c = h.invocations.entry(key.clone()).or_insert(0);
         let inv = *c;
@@ -348,6 +371,7 @@ async fn callable(key: String, world: Option<&mut TW>, reason: Option<String>) {
             h.plan.outcome(&key, inv),
             h.plan.logs_before,
             h.plan.logs_after,
+            h.plan.sync_panics,
         )
     });
     log(LogKind::Enter {
@@ -361,31 +385,43 @@ async fn callable(key: String, world: Option<&mut TW>, reason: Option<String>) {
         log(LogKind::AfterReason { key: key.clone(), reason });
     }
     emit_logs(&key, inv, "b", lb);
-    if gated {
-        gate(format!("{key}#{inv}")).await;
+    if sync && outcome.is_fail() {
+        if let Some(w) = world {
+            w.counter += 1;
+        }
+        log(LogKind::Exit { key: key.clone(), inv, outcome });
+        throw(outcome, &key, inv);
     }
-    emit_logs(&key, inv, "a", la);
+    Begun { key, inv, gated, outcome, logs_after: la }
+}
+
+/// Second half: the gate, then the planned outcome.
+async fn finish(b: Begun, world: Option<&mut TW>) {
+    if b.gated {
+        gate(format!("{}#{}", b.key, b.inv)).await;
+    }
+    emit_logs(&b.key, b.inv, "a", b.logs_after);
     if let Some(w) = world {
         w.counter += 1;
     }
-    log(LogKind::Exit { key: key.clone(), inv, outcome });
-    match outcome {
-        Outcome::Pass => {}
-        Outcome::PanicString => {
-            std::panic::panic_any(format!("boom {key}#{inv}"))
-        }
-        Outcome::PanicStr => std::panic::panic_any("boom-static"),
-        Outcome::PanicCustom => {
-            std::panic::panic_any(CustomPayload(format!("{key}#{inv}")))
-        }
-    }
+    log(LogKind::Exit { key: b.key.clone(), inv: b.inv, outcome: b.outcome });
+    throw(b.outcome, &b.key, b.inv);
+}
+
+fn sync_mode() -> bool {
+    HS.with(|h| h.borrow().plan.sync_panics)
 }
 
 /// The generic step function.
 pub fn step_fn(w: &mut TW, ctx: Context) -> LocalBoxFuture<'_, ()> {
+    let key = ctx.step.value.clone();
+    if sync_mode() {
+        let b = begin(key, Some(&mut *w), None);
+        return Box::pin(finish(b, Some(w)));
+    }
     Box::pin(async move {
-        let key = ctx.step.value.clone();
-        callable(key, Some(w), None).await;
+        let b = begin(key, Some(&mut *w), None);
+        finish(b, Some(w)).await;
     })
 }
 
@@ -393,7 +429,8 @@ pub fn step_fn(w: &mut TW, ctx: Context) -> LocalBoxFuture<'_, ()> {
 pub fn step_fn2(w: &mut TW, ctx: Context) -> LocalBoxFuture<'_, ()> {
     Box::pin(async move {
         let key = format!("{}!2", ctx.step.value);
-        callable(key, Some(w), None).await;
+        let b = begin(key, Some(&mut *w), None);
+        finish(b, Some(w)).await;
     })
 }
 
@@ -403,9 +440,16 @@ pub fn before_hook<'a>(
     s: &'a gherkin::Scenario,
     w: &'a mut TW,
 ) -> LocalBoxFuture<'a, ()> {
+    let key = format!("before {}", s.name);
+    if sync_mode() {
+        w.stamp = Some(s.name.clone());
+        let b = begin(key, Some(&mut *w), None);
+        return Box::pin(finish(b, Some(w)));
+    }
     Box::pin(async move {
         w.stamp = Some(s.name.clone());
-        callable(format!("before {}", s.name), Some(w), None).await;
+        let b = begin(key, Some(&mut *w), None);
+        finish(b, Some(w)).await;
     })
 }
 
@@ -427,10 +471,15 @@ pub fn after_hook<'a>(
     _r: Option<&'a gherkin::Rule>,
     s: &'a gherkin::Scenario,
     ev: &'a ScenarioFinished,
-    w: Option<&'a mut TW>,
+    mut w: Option<&'a mut TW>,
 ) -> LocalBoxFuture<'a, ()> {
+    let key = format!("after {}", s.name);
+    if sync_mode() {
+        let b = begin(key, w.as_deref_mut(), Some(render_reason(ev)));
+        return Box::pin(finish(b, w));
+    }
     Box::pin(async move {
-        let reason = render_reason(ev);
-        callable(format!("after {}", s.name), w, Some(reason)).await;
+        let b = begin(key, w.as_deref_mut(), Some(render_reason(ev)));
+        finish(b, w).await;
     })
 }
